@@ -486,7 +486,7 @@ def solve_cvc5(pc, goal, timeout_ms=5000, extra=()):
     try:
         with os.fdopen(fd, "w") as f:
             f.write(src)
-        p = subprocess.run([CVC5, "--finite-model-find", f"--tlimit={int(timeout_ms)}", path], capture_output=True, text=True, timeout=timeout_ms / 1000.0 + 5)
+        p = subprocess.run([CVC5, "--finite-model-find", "--strings-exp", f"--tlimit={int(timeout_ms)}", path], capture_output=True, text=True, timeout=timeout_ms / 1000.0 + 5)
         out = p.stdout.strip()
         if out.startswith("sat"):
             return "sat", TextModel("cvc5 --finite-model-find: " + out[3:].strip()), time.time() - t
